@@ -15,6 +15,7 @@ import (
 	"github.com/rogpeppe/go-internal/lockedfile"
 
 	"cuelang.org/go/internal/robustio"
+	"cuelang.org/go/internal/verifhook"
 	"cuelang.org/go/mod/module"
 )
 
@@ -64,6 +65,7 @@ func (c *Cache) writeDiskCache(ctx context.Context, file string, data []byte) er
 
 	// Write the file to a temporary location, and then rename it to its final
 	// path to reduce the likelihood of a corrupt file existing at that final path.
+	verifhook.At("cache.afterMkdir")
 	f, err := tempFile(ctx, filepath.Dir(file), filepath.Base(file), 0666)
 	if err != nil {
 		return err
@@ -78,15 +80,19 @@ func (c *Cache) writeDiskCache(ctx context.Context, file string, data []byte) er
 		}
 	}()
 
+	verifhook.At("cache.afterTempFile")
 	if _, err := f.Write(data); err != nil {
 		return err
 	}
+	verifhook.At("cache.afterWrite")
 	if err := f.Close(); err != nil {
 		return err
 	}
+	verifhook.At("cache.afterClose")
 	if err := robustio.Rename(f.Name(), file); err != nil {
 		return err
 	}
+	verifhook.At("cache.afterRename")
 	return nil
 }
 
